@@ -150,6 +150,10 @@ class NaniteFitModel:
         p_def = list(self.module.get_parameter_defaults().keys())
         p_arg = list(inspect.signature(
             self.module.model_func).parameters.keys())
+        if len(p_def) != len(self.module.parameter_keys):
+            raise ModelImplementationError(
+                "'parameter_keys' and 'get_parameter_defaults' have "
+                + f"different lengths for model '{model_key}'!")
         for ii, key in enumerate(self.module.parameter_keys):
             if key != p_def[ii]:
                 raise ModelImplementationError(
